@@ -220,7 +220,10 @@ var c05Alphabet = []byte{0x00, 0x01, 0x0f, 0x10, 0x11, 0x1f, 0xf0, 0xff}
 
 func genModel(t *rapid.T) kit.OrdMap {
 	model := kit.OrdMap{}
-	n := rapid.SampledFrom([]int{0, 1, 2, 2, 3, 3, 4, 4, 5, 6, 8, 12}).Draw(t, "nkeys")
+	n := rapid.SampledFrom([]int{1, 2, 2, 3, 3, 4, 4, 5, 6, 8, 12}).Draw(t, "nkeys")
+	if rapid.IntRange(0, 39).Draw(t, "emptystate") == 17 {
+		n = 0
+	}
 	var pool [][]byte
 	for i := 0; i < n; i++ {
 		var k []byte
@@ -313,7 +316,7 @@ func multisetEqual(a, b [][]byte) bool {
 }
 
 // genVariant applies 1-3 adversarial edits to the honest proof.
-func genVariant(t *rapid.T, st *c05State, honest [][]byte, foreign [][]byte, labels map[string]bool) variant {
+func genVariant(t *rapid.T, st *c05State, honest [][]byte, foreign [][]byte, nbProof [][]byte, labels map[string]bool) variant {
 	p := make([][]byte, len(honest))
 	for i := range honest {
 		p[i] = append([]byte{}, honest[i]...)
@@ -322,7 +325,7 @@ func genVariant(t *rapid.T, st *c05State, honest [][]byte, foreign [][]byte, lab
 	nops := rapid.IntRange(1, 3).Draw(t, "nops")
 	for o := 0; o < nops; o++ {
 		nbefore := len(ops)
-		op := rapid.SampledFrom([]string{"drop", "drop", "dup", "reorder", "foreign", "foreign", "flip", "trunc", "random", "special", "preimage", "allnodes", "hashval"}).Draw(t, "vop")
+		op := rapid.SampledFrom([]string{"drop", "drop", "dup", "reorder", "foreign", "foreign", "foreignproof", "foreignproof", "flip", "trunc", "random", "special", "preimage", "allnodes", "hashval"}).Draw(t, "vop")
 		switch op {
 		case "drop":
 			if len(p) == 0 {
@@ -354,6 +357,27 @@ func genVariant(t *rapid.T, st *c05State, honest [][]byte, foreign [][]byte, lab
 				at := rapid.IntRange(0, len(p)).Draw(t, "fat")
 				p = append(p[:at], append([][]byte{append([]byte{}, foreign[i]...)}, p[at:]...)...)
 				ops = append(ops, fmt.Sprintf("foreign%d@%d", i, at))
+			}
+		case "foreignproof":
+			// a valid proof of the same keys against the neighbouring state,
+			// put in front of, behind, or instead of the honest nodes
+			if len(nbProof) == 0 {
+				continue
+			}
+			cp := make([][]byte, len(nbProof))
+			for i := range nbProof {
+				cp[i] = append([]byte{}, nbProof[i]...)
+			}
+			switch rapid.IntRange(0, 2).Draw(t, "fpmode") {
+			case 0:
+				p = append(cp, p...)
+				ops = append(ops, "foreignproof-front")
+			case 1:
+				p = append(p, cp...)
+				ops = append(ops, "foreignproof-back")
+			case 2:
+				p = cp
+				ops = append(ops, "foreignproof-only")
 			}
 		case "flip":
 			if len(p) == 0 {
@@ -431,11 +455,27 @@ type claim struct {
 
 // genClaims draws up to 6 claims; at least one is false in the model whenever
 // one can be built.
-func genClaims(t *rapid.T, st *c05State, proven [][]byte) []claim {
+func genClaims(t *rapid.T, st *c05State, nb *c05State, proven [][]byte) []claim {
 	var out []claim
 	keys := st.model.Keys()
+	// entries of the neighbouring state that do not hold in this state
+	var nbDiff []string
+	for _, k := range nb.model.Keys() {
+		if mv, ok := st.model[k]; !ok || !bytes.Equal(mv, nb.model[k]) {
+			nbDiff = append(nbDiff, k)
+		}
+	}
 	n := rapid.IntRange(2, 6).Draw(t, "nclaims")
 	for i := 0; i < n; i++ {
+		if len(nbDiff) > 0 && rapid.IntRange(0, 3).Draw(t, "foreignclaim") == 0 {
+			k := nbDiff[rapid.IntRange(0, len(nbDiff)-1).Draw(t, "fck")]
+			v := nb.model[k]
+			if rapid.IntRange(0, 3).Draw(t, "fcexists") == 0 {
+				v = nil
+			}
+			out = append(out, claim{kind: "foreign-entry", k: []byte(k), v: v})
+			continue
+		}
 		kind := rapid.SampledFrom([]string{"true", "wrong", "wrong", "hash-as-value", "exists", "absent-mut", "absent-mut", "absent-mut", "absent-fresh"}).Draw(t, "ckind")
 		if len(keys) == 0 && kind != "absent-fresh" {
 			kind = "absent-fresh"
@@ -636,6 +676,28 @@ func c05Property(t *rapid.T, model kit.OrdMap, v1 bool) {
 			foreign = append(foreign, b)
 		}
 	}
+	var nbProof [][]byte
+	{
+		var nbKeys [][]byte
+		for _, k := range proven {
+			if _, ok := nb.model[string(k)]; ok {
+				nbKeys = append(nbKeys, k)
+			}
+		}
+		for _, k := range nb.model.Keys() {
+			if _, ok := model[k]; !ok {
+				nbKeys = append(nbKeys, []byte(k))
+			}
+		}
+		if len(nbKeys) > 0 {
+			var err error
+			nbProof, err = c05Generate(t, nb, nbKeys)
+			if err != nil {
+				t.Fatalf("completeness: Generate failed for present keys %x: %v; state %s v1=%v", nbKeys, err, nb.model.Describe(), nb.v1)
+			}
+		}
+	}
+	fmt.Fprintf(&descr, " nb(v1=%v %s)", nb.v1, nb.model.Describe())
 	variants := []variant{{ops: "honest", proof: honest}}
 	// a request mixing present and absent keys: ErrKeyNotFound is documented and
 	// accepted; when a proof comes back it must still serve the present keys.
@@ -684,7 +746,7 @@ func c05Property(t *rapid.T, model kit.OrdMap, v1 bool) {
 	nv := rapid.IntRange(1, 7).Draw(t, "nvariants")
 	differs := false
 	for i := 0; i < nv; i++ {
-		vr := genVariant(t, st, honest, foreign, labels)
+		vr := genVariant(t, st, honest, foreign, nbProof, labels)
 		if !multisetEqual(vr.proof, honest) {
 			differs = true
 		}
@@ -692,7 +754,7 @@ func c05Property(t *rapid.T, model kit.OrdMap, v1 bool) {
 	}
 
 	// ---- claims
-	claims := genClaims(t, st, proven)
+	claims := genClaims(t, st, nb, proven)
 	falseClaims := 0
 	for _, c := range claims {
 		fmt.Fprintf(&descr, " claim(%s %x=%s)", c.kind, c.k, shortHex(c.v))
@@ -741,4 +803,103 @@ func c05Property(t *rapid.T, model kit.OrdMap, v1 bool) {
 	sort.Strings(ls)
 	nontrivial := len(model) >= 2 && model.SharesNibblePrefix() && (hashedProven || differs) && falseClaims > 0
 	kit.Case(descr.String(), nontrivial, ls...)
+}
+
+// ---------------------------------------------------------------------------
+// TestC05Regressions: shrunk failures found by TestC05Proofs on the pinned
+// tree, one group per root cause (see NOTES.md and fixes/), as plain
+// deterministic cases that bypass the generator.
+
+func TestC05Regressions(t *testing.T) {
+	defer kit.Flush()
+	long := func(n int, seed byte) []byte {
+		v := make([]byte, n)
+		for i := range v {
+			v[i] = seed + byte(i*7)
+		}
+		return v
+	}
+	type reg struct {
+		name   string
+		v1     bool
+		model  kit.OrdMap
+		prove  []string // keys of the honest proof (all present): Generate must succeed, each must verify
+		reject []claim  // false claims that the honest proof must not confirm
+	}
+	cases := []reg{
+		// fixes/02: the pre-image of a hashed (V1, > 32 bytes) value was not part of the proof
+		{name: "v1-hashed-root-leaf", v1: true, model: kit.OrdMap{"\x01": long(33, 0)}, prove: []string{"\x01"}},
+		{name: "v1-hashed-leaf", v1: true, model: kit.OrdMap{"\x01\x00": long(40, 1), "\x01\x10": long(64, 2), "\xf0": []byte("a")}, prove: []string{"\x01\x10", "\x01\x00"}},
+		// fixes/03: a branch with a hashed value returned the hash as the value
+		{name: "v1-hashed-branch-value", v1: true, model: kit.OrdMap{"\x01": long(40, 3), "\x01\x02": []byte("a")}, prove: []string{"\x01"},
+			reject: []claim{{k: []byte("\x01"), v: func() []byte { h := kit.Blake256(long(40, 3)); return h[:] }()}}},
+		{name: "v1-hashed-root-branch-value", v1: true, model: kit.OrdMap{"": long(33, 4), "\x00": long(33, 5)}, prove: []string{"", "\x00"},
+			reject: []claim{{k: []byte(""), v: func() []byte { h := kit.Blake256(long(33, 4)); return h[:] }()}}},
+		// fixes/04: an inlined leaf with an empty value was dropped from the proof trie
+		{name: "inlined-leaf-empty-value", model: kit.OrdMap{"": []byte{}, "\x00": []byte{}}, prove: []string{"\x00"}},
+		{name: "inlined-leaf-empty-value-below-hashed-branch", model: kit.OrdMap{"\x00": []byte{}, "\x11": long(31, 6), "\x11\x11": []byte{}}, prove: []string{"\x00", "\x11\x11"}},
+		// checks/C02/fixes (Get of an absent key): lookup ending at, or diverging inside, a branch
+		{name: "absent-key-ends-at-branch-position", model: kit.OrdMap{"\x01\x23": []byte("a"), "\x01\x23\x45": []byte("b"), "\x0f": []byte("c")}, prove: []string{"\x01\x23"},
+			reject: []claim{{k: []byte("\x01"), v: []byte("a")}, {k: []byte("\x01"), v: nil}}},
+		{name: "absent-empty-key-at-root-branch", model: kit.OrdMap{"\x00": []byte{}, "\x00\x00": []byte{}}, prove: []string{"\x00"},
+			reject: []claim{{k: []byte(""), v: nil}}},
+		{name: "absent-key-diverging-in-branch-partial-key", model: kit.OrdMap{"\x01\x52\x37": []byte("v"), "\x01\x52\x38": []byte("w"), "\x01\x60": []byte("x")}, prove: []string{"\x01\x52\x37"},
+			reject: []claim{{k: []byte("\x05\x27"), v: []byte("v")}, {k: []byte("\x05\x27"), v: nil}}},
+	}
+	for _, c := range cases {
+		st := c05Build(t, c.model, c.v1)
+		var keys [][]byte
+		for _, k := range c.prove {
+			keys = append(keys, []byte(k))
+		}
+		p, err := c05Generate(t, st, keys)
+		if err != nil {
+			t.Errorf("%s: Generate(%x): %v", c.name, keys, err)
+			continue
+		}
+		for _, k := range keys {
+			if err := c05Verify(t, st, p, k, c.model[string(k)]); err != nil {
+				t.Errorf("%s: completeness: Verify(key %x, value %x) = %v; proof %s", c.name, k, c.model[string(k)], err, descrProof(p))
+			}
+			if err := c05Verify(t, st, p, k, nil); err != nil {
+				t.Errorf("%s: completeness: Verify(key %x, no value) = %v; proof %s", c.name, k, err, descrProof(p))
+			}
+		}
+		for _, cl := range c.reject {
+			if claimTrue(c.model, cl.k, cl.v) {
+				t.Fatalf("%s: regression case is wrong: claim %x=%x holds", c.name, cl.k, cl.v)
+			}
+			if err := c05Verify(t, st, p, cl.k, cl.v); err == nil {
+				t.Errorf("%s: soundness: Verify accepted key %x value %x; state %s v1=%v proof %s", c.name, cl.k, cl.v, c.model.Describe(), c.v1, descrProof(p))
+			}
+		}
+		kit.Case("regression "+c.name, true, "regression")
+	}
+
+	// fixes/01 and fixes/05: the empty state (root = BLAKE2b-256(0x00)) made Generate and Verify panic
+	empty := c05Build(t, kit.OrdMap{}, false)
+	func() {
+		defer func() {
+			if r := recover(); r != nil {
+				t.Errorf("empty-state: Generate panicked: %v", r)
+			}
+		}()
+		_, err := Generate(empty.root[:], [][]byte{{0x00}}, empty.db)
+		if err == nil {
+			t.Errorf("empty-state: Generate for an absent key returned no error")
+		}
+	}()
+	func() {
+		defer func() {
+			if r := recover(); r != nil {
+				t.Errorf("empty-state: Verify panicked: %v", r)
+			}
+		}()
+		for _, v := range [][]byte{nil, {0x01}} {
+			if err := Verify([][]byte{{0x00}}, empty.root[:], []byte{0x00}, v); err == nil {
+				t.Errorf("empty-state: Verify accepted key 00 value %x in the empty state", v)
+			}
+		}
+	}()
+	kit.Case("regression empty-state", true, "regression")
 }
